@@ -416,3 +416,25 @@ def mutate(data, rng):
         i = rng.randrange(n)
         data[i:i + rng.randint(1, 8)] = b"\xff" * rng.randint(1, 8)
     return kind, bytes(data)
+
+
+def randomise_video_parameters(vp, rng):
+    """Perturb the metadata fields of a VideoParameters dict (colour description, frame rate, pixel
+    aspect ratio, clean area) keeping the format valid; frame size / sampling / signal ranges untouched."""
+    if rng.random() < 0.7:
+        vp["color_primaries_index"] = rng.choice(list(PresetColorPrimaries))
+        vp["color_matrix_index"] = rng.choice(list(PresetColorMatrices))
+        vp["transfer_function_index"] = rng.choice(list(PresetTransferFunctions))
+    if rng.random() < 0.5:
+        vp["frame_rate_numer"], vp["frame_rate_denom"] = rng.choice(
+            [(24000, 1001), (24, 1), (25, 1), (30000, 1001), (30, 1), (50, 1), (60000, 1001), (60, 1), (15000, 1001), (25, 2),
+             (48, 1), (48000, 1001), (96, 1), (100, 1), (120000, 1001), (120, 1), (7, 3), (1, 1), (1000, 1)])
+    if rng.random() < 0.5:
+        vp["pixel_aspect_ratio_numer"], vp["pixel_aspect_ratio_denom"] = rng.choice(
+            [(1, 1), (10, 11), (12, 11), (40, 33), (16, 11), (4, 3), (3, 2), (7, 5)])
+    if rng.random() < 0.4:
+        w, h = vp["frame_width"], vp["frame_height"]
+        cw, ch = rng.randint(1, w), rng.randint(1, h)
+        vp["clean_width"], vp["clean_height"] = cw, ch
+        vp["left_offset"], vp["top_offset"] = rng.randint(0, w - cw), rng.randint(0, h - ch)
+    return vp
